@@ -92,7 +92,8 @@ Mismatch(expected, pack) == (expected = "Success") # (pack = "ok")
 \* pack = "nopack": a locally packaged buildpack (BuildpackReference::CurrentCrate / WorkspaceBuildpack)
 \* cannot be built, so build_internal panics before pack is invoked - it already owns the Docker
 \* resource names and the temporary directories at that point
-PackCmds(pack) == IF pack = "nopack" THEN <<>> ELSE <<Cmd("pack-build", "img")>>
+\* pack = "missing": there is no `pack` executable on PATH (CommandError::NotFound): same shape
+PackCmds(pack) == IF pack \in {"nopack", "missing"} THEN <<>> ELSE <<Cmd("pack-build", "img")>>
 
 \* TestRunner::build: temp dir for packaged buildpacks (+ private app copy when a preprocessor
 \* is configured), pack build, expectation check.  A mismatch panics inside build_internal,
@@ -103,7 +104,7 @@ StartBuild(expected, pack, preproc) ==
   /\ LET t == IF preproc THEN 2 ELSE 1 IN
      /\ Issue(<<Cmd("temp", t)>> \o PackCmds(pack))
      /\ stack' = <<[k |-> "build", ctx |-> TRUE, temps |-> t, c |-> "-"]>>
-  /\ unwinding' = (pack = "nopack" \/ Mismatch(expected, pack))
+  /\ unwinding' = (pack \in {"nopack", "missing"} \/ Mismatch(expected, pack))
   /\ UNCHANGED <<nextc, done>>
 
 InBuild == Len(stack) > 0 /\ Top.k = "build" /\ ~unwinding /\ ~done
@@ -184,7 +185,7 @@ Finish ==
 
 Outcomes == {"ok", "fail"}
 Next ==
-  \/ \E e \in {"Success", "Failure"}, p \in Outcomes \cup {"nopack"}, pre \in BOOLEAN : StartBuild(e, p, pre)
+  \/ \E e \in {"Success", "Failure"}, p \in Outcomes \cup {"nopack", "missing"}, pre \in BOOLEAN : StartBuild(e, p, pre)
   \/ \E n \in {"shell", "sbom"}, o \in Outcomes : ImageStep(n, o)
   \/ \E o \in Outcomes : StartContainer(o)
   \/ \E n \in {"logs", "port", "exec"}, o \in Outcomes : ContainerStep(n, o)
